@@ -163,7 +163,8 @@ def generate(seed, tier):
     g = _Gen(r, classes=classes, max_depth=r.choice([1, 2, 3, 3, 4]), pool=[],
              idents=["x", "y", "z"], p_leaf=0.3,
              leaf_classes=("Variable", "Variable", "SubVariable", "LegacyVar"),
-             const_kinds=("i", "i", "f", "b", "npi", "npf", "c"), const_values=(0, 1, 2, -1, 3, 7))
+             const_kinds=("i", "i", "f", "b", "npi", "npf", "c", "uc"),
+             const_values=(0, 1, 2, -1, 3, 7))
     g.extra_fields = dict(GA_FIELDS)
     g.extra_fields.update(USER_FIELDS)
     g.allow_short = True
